@@ -50,6 +50,9 @@ FAMILIES = {
     'sdac': 'Do S-DAC-GT Calculations, True\n',
     'addons': ('Do AddOn Calculations, True\nAddOn Nickname 1, Desal\nAddOn CAPEX 1, 10\nAddOn OPEX 1, 0.1\nAddOn Electricity Gained 1, 100\n'
                'AddOn Heat Gained 1, 0.0\nAddOn Profit Gained 1, 0.05\n'),
+    # a reservoir whose temperature history is a data file named in the input, relative to the program's own directory: the caller's directory
+    # holds a file of the same relative name with other numbers (a decoy), which no entry point may pick up
+    'upp': 'Reservoir Model, 5\nReservoir Output File Name, Examples/ReservoirOutput.txt\nPlant Lifetime, 30\nTime steps per year, 4\n',      # (the bundled file holds 30 years x 4 steps)
 }
 PKG_DIR = os.path.dirname(os.path.abspath(gx.P.__file__))
 BAD = 'Reservoir Model, 4\nReservoir Depth, 3\nGradient 1, 50\nMaximum Temperature, 9999\nPrint Output to Console, 0\n'
@@ -187,6 +190,11 @@ def scenario(inst, shape, input_abs, failing, family='plain', start='same'):
         expected_report = os.path.join(cwd_dir, 'HDR.out') if out_arg is None else (out_arg if os.path.isabs(out_arg) else os.path.join(cwd_dir, out_arg))
         er = Path(expected_report)
         expected_json = str(er.with_name(er.stem + '.json')) if out_arg is not None else os.path.join(cwd_dir, 'HDR.json')
+        if family == 'upp':
+            for dd in {cwd_dir, work}:
+                os.makedirs(os.path.join(dd, 'Examples'), exist_ok=True)
+                with open(os.path.join(dd, 'Examples', 'ReservoirOutput.txt'), 'w') as f:
+                    f.write(''.join(f'{0.25 * i}\t,\t{120 - 0.5 * i}\n' for i in range(120)))
         before = tree(root)
         pkg_before = tree_stat(PKG_DIR)
         rc, cwd_ok, argv_ok = run_cli(cwd_dir, [inp_arg] + ([out_arg] if out_arg is not None else []))
@@ -264,6 +272,15 @@ def scenario(inst, shape, input_abs, failing, family='plain', start='same'):
                 direct_text = normalise(open(direct_out).read())
                 res.append(('direct pipeline and CLI produce the same case report for the same input', direct_text == cli_text,
                             {'first difference': _first_diff(cli_text, direct_text)}))
+                if family == 'upp':
+                    # the same input from another (empty) directory: what the caller's directory happens to contain is not an input
+                    other = os.path.join(root, 'elsewhere')
+                    os.makedirs(other, exist_ok=True)
+                    other_out = os.path.join(root, 'elsewhere.out')
+                    rc2, _, _ = run_cli(other, [os.path.join(work, inp_rel), other_out])
+                    other_text = normalise(open(other_out).read()) if os.path.isfile(other_out) else None
+                    res.append(('CLI: the case report does not depend on the directory the program is started from (a data file named in the input is '
+                                'resolved the same way from everywhere)', other_text == cli_text, {'exit': rc2, 'first difference': _first_diff(cli_text, other_text or '')}))
             finally:
                 os.chdir(cwd0)
         return res, {'cwd': 'w' if start == 'same' else '. (parent of the input directory)', 'input_arg': inp_arg if not input_abs else '<abs>/' + inp_rel, 'output_arg': out_arg if out_arg is None or not os.path.isabs(out_arg) else '<abs>/' + A + '/' + name}
@@ -320,6 +337,8 @@ def run_unit(unit):
                     continue
                 fams = ['plain'] if (failing or input_abs or (unit['tier'] == 'quick' and shape not in ('none', 'rel-file', 'abs-dir-file'))) else list(FAMILIES)
                 for family in fams:
+                    if family == 'upp' and shape != 'none':
+                        continue
                     run_one(log, cfg, inst, shape, input_abs, failing, family)
                 if not input_abs and (unit['tier'] == 'thorough' or shape in ('none', 'rel-file', 'rel-dir-file-noext')):
                     run_one(log, cfg, inst, shape, input_abs, failing, 'plain', start='parent')
